@@ -1,6 +1,8 @@
 (* C16 -- Deprecated prefixes and routes count down to zero at a fixed deadline.
    Statements only; each is closed by [exact] of a lemma proved in Proofs/Lifetimes.v. *)
 From CR Require Import Model.Lifetimes Proofs.Lifetimes.
+(* the wiring in main() the model takes for granted (one State, one Metrics, epoch = start, Serve error fatal): Properties/Main.v *)
+From CR Require Properties.Main.
 (* a scheduled RA is built when its timer fires, by the call that writes it (extracted): C16_on_the_wire: fresh_sources in Properties/Fresh.v *)
 From CR Require Properties.Fresh.
 (* the code computes instants and durations on one clock (extracted): one_clock in Properties/Clock.v *)
